@@ -2,6 +2,7 @@ SPECIFICATION Spec
 CONSTANTS Pipes = {1, 2, 3, 4}
           MaxOps = 3
           MaxTicks = 5
-          RTime = 10
+          RMin = 10
+          RMax = 25
 INVARIANTS EventOrder DialerSound ListenerSound ClosedIsFinal CtxClosedIsFinal
 ACTION_CONSTRAINT ExportEdge
